@@ -102,6 +102,9 @@ func (s Step) Hex(k string) []byte {
 	id.nth = handedSeen[id]
 	handedSeen[handedKey{step: id.step, field: k}]++
 	if h, ok := handed[id]; ok {
+		if h.n == 0 && secondPass {
+			return nil // an empty input is offered in both shapes: empty but non-nil in the first pass, nil in the second
+		}
 		return h.buf[:h.n]
 	}
 	b := s.HexMut(k)
